@@ -19,6 +19,7 @@ from fractions import Fraction
 import z3
 
 CUR = None          # the active context (SymCtx or ConcreteCtx)
+NONFINITE = {'raise': False}   # division by zero: abort path or raise
 
 
 class PathAbort(BaseException):
@@ -835,6 +836,9 @@ class SymCtx:
             return SReal(a * z3.RealVal(
                 f"{b.denominator_as_long()}/{b.numerator_as_long()}"))
         if self.branch(b == 0):
+            if NONFINITE['raise']:
+                raise ZeroDivisionError('division by zero: the real code '
+                                        'would produce inf / NaN here')
             raise PathAbort('division by zero (nonfinite)')
         a = z3.simplify(a)
         key = ('div', a.get_id(), b.get_id())
